@@ -9,7 +9,7 @@ from hpotk.ontology import create_minimal_ontology  # noqa: E402
 from hpotk.validate import (AnnotationPropagationValidator, PhenotypicAbnormalityValidator,  # noqa: E402
                             ObsoleteTermIdsValidator, ValidationRunner, ValidationLevel)
 
-from impl_graph import FACTORIES, exn_name  # noqa: E402
+from impl_graph import FACTORIES, exn_name, warm_up  # noqa: E402
 
 VALIDATORS = {'P': AnnotationPropagationValidator, 'A': PhenotypicAbnormalityValidator, 'O': ObsoleteTermIdsValidator}
 KIND = {('ERROR', 'annotation_propagation'): 'P', ('WARNING', 'phenotypic_abnormality_descendant'): 'A',
@@ -98,6 +98,8 @@ def observe_case(case):
     g = FACTORIES[case['factory']]().create_graph(edges)
     terms = [MinimalTerm.create_minimal_term(tid, 'name of ' + tid, alts, obsolete) for tid, alts, obsolete in case['terms']]
     hpo = create_minimal_ontology(g, terms, 'v')
+    if len(case['edges']) % 2 == 0:
+        warm_up(hpo, list(g), len(case['runs']))
     runs = []
     for run in case['runs']:
         items = [mkitem(s) for s in run['items']]
